@@ -28,6 +28,9 @@ type EnvCase struct {
 	Ranks   []string `json:"ranks"`
 	AsStage bool     `json:"as_stage"`
 	Hooks   bool     `json:"hooks"` // also print from before/after hooks (levels up to task/stage apply there)
+	// Empty: levels (bits as in Mask) whose value is the empty string - a value like any other: a level that
+	// defines the name as empty still wins over lower levels
+	Empty int `json:"empty,omitempty"`
 }
 
 func (c EnvCase) canon() string { b, _ := json.Marshal(c); return string(b) }
@@ -43,7 +46,7 @@ func (c EnvCase) nontrivial() bool {
 	for i := 0; i < top; i++ {
 		if c.Mask&(1<<i) != 0 {
 			n++
-			if c.Ranks[i] > c.Ranks[top] {
+			if c.Ranks[i] > c.Ranks[top] || c.Empty&(1<<top) != 0 {
 				return true
 			}
 		}
@@ -53,7 +56,12 @@ func (c EnvCase) nontrivial() bool {
 
 func runEnv(c EnvCase, dir string) error {
 	os.MkdirAll(filepath.Join(dir, "home"), 0o755)
-	val := func(i int) string { return c.Ranks[i] + "_" + levels[i] }
+	val := func(i int) string {
+		if c.Empty&(1<<i) != 0 {
+			return ""
+		}
+		return c.Ranks[i] + "_" + levels[i]
+	}
 	has := func(i int) bool { return c.Mask&(1<<i) != 0 }
 	line := `printf '%s FOO=%%s OTHER=%%s TN=%%s\n' "$FOO" "$OTHER" "$TASK_NAME"`
 	task := gen.Map{{K: "command", V: gen.List{fmt.Sprintf(line, "CMD")}}}
@@ -172,11 +180,18 @@ func TestEnv(t *testing.T) {
 		ranks := rapid.Permutation([]string{"a", "c", "e", "g", "m", "z"}).Draw(rt, "ranks")
 		asStage := rapid.Bool().Draw(rt, "as_stage")
 		hooks := rapid.IntRange(0, 3).Draw(rt, "hooks") == 0
+		empty := 0
+		if rapid.Bool().Draw(rt, "some-values-empty") {
+			empty = rapid.IntRange(1, 63).Draw(rt, "empty-levels")
+		}
 		for mask := 1; mask < 64; mask++ {
 			if !asStage && mask&(1<<4) != 0 {
 				continue
 			}
-			c := EnvCase{Mask: mask, Ranks: ranks, AsStage: asStage, Hooks: hooks}
+			c := EnvCase{Mask: mask, Ranks: ranks, AsStage: asStage, Hooks: hooks, Empty: empty & mask}
+			if c.Empty != 0 {
+				drv.Class("a level defines the empty value")
+			}
 			k++
 			dir := filepath.Join(root, fmt.Sprint("c", k))
 			cls := []string{fmt.Sprintf("levels-present=%d", len(present(mask)))}
